@@ -31,7 +31,7 @@ class C12:
     tables = True
     rule = (
         "cases = operation sequences of 30 steps over {append (hostile text, rtn 0/1/2, optional leading-space flag), flush, flush(at_exit), clear, read everything} with buffersize in {1,2,3,10}, "
-        "$HISTCONTROL subset of {ignoredups, ignoreerr, ignorespace}, $XONSH_STORE_STDOUT on/off, JSON or SQLite backend, with or without delay injection into flusher/reader code; "
+        "$HISTCONTROL subset of {ignoredups, ignoreerr, ignorespace}, $XONSH_STORE_STDOUT on/off, JSON or SQLite backend, with or without delay injection into flusher/reader code; plus a one-preemption sweep (each statement line of the flusher / reader / append code held in turn under three standard sequences) and a shell layer (prompt inputs - statements, commands, chains, blocks, continuations, duplicates, leading-space lines - through the real BaseShell.default); "
         "distinct_nontrivial = distinct (backend, buffersize, HISTCONTROL, op-kind sequence) with at least two flushes or a clear"
     )
     assumptions = [
